@@ -547,7 +547,7 @@ class ConfigLoader(BaseConfig):
             eff_function = self.config["data"].get("eff_function", None)
             w_bkg = self.config["data"]["bg_frac"]
             if not isinstance(w_bkg, list):
-                w_bkg = [w_bkg]
+                w_bkg = [w_bkg] * self._Ngroup
             if self.config["data"].get("extended", False):
                 self.free_for_extended(amp)
             for wb in w_bkg:
